@@ -6,7 +6,10 @@ C=$1; PROP=$2; shift 2
 WT=/tmp/revert-eval-$$
 git -C /repo worktree add -q "$WT" HEAD || exit 2
 trap 'git -C /repo worktree remove --force "$WT" >/dev/null 2>&1' EXIT
-git -C "$WT" revert --no-commit "$C" >/dev/null 2>&1 || { echo "REVERT-CONFLICT $C"; exit 2; }
+# <fix-commit> may be a comma-separated list (a fix and its later correction), reverted in the order given
+for c in $(echo "$C" | tr ',' ' '); do
+  git -C "$WT" revert --no-commit "$c" >/dev/null 2>&1 || { echo "REVERT-CONFLICT $c"; exit 2; }
+done
 (cd "$WT" && go build ./...) || { echo BUILD-FAILS; exit 2; }
 VERIF_REPO="$WT" /verif/bin/verif check "$PROP" "$@" 2>&1 | grep "VIOLATION\|signature:\|quick:" | cut -c1-200
 find /verif/replays -name '*.json' -mmin -10 -delete 2>/dev/null
